@@ -128,8 +128,8 @@ def layers_of(d):
 
 
 def ty_key(t):
-    """a type as the list of its wires, each a (name, winding number) pair: compared without the library's own `==`"""
-    return [(repr(getattr(o, 'name', o)), getattr(o, 'z', 0)) for o in t]
+    """a type as the list of its wires, each a (name, winding number) pair, plus (class, dimension) for the objects of circuits (bits, digits, qubits, qudits): compared without the library's own `==`"""
+    return [(repr(getattr(o, 'name', o)), getattr(o, 'z', 0), (type(o).__name__, o.dim) if hasattr(o, 'dim') else None) for o in t]
 
 
 def ty_key_any(t):
